@@ -47,6 +47,9 @@ type pendingOp struct {
 	dedup   bool
 	hasTick bool
 	failErr error
+	// what had happened when the upload started
+	corruptionsAtStart int
+	discardsAtStart    float64
 	// comp
 	child  int
 	slices []slicing.BlobSlice
@@ -198,7 +201,8 @@ func splitChunks(data []byte, spec string) [][]byte {
 // startPut launches an upload; it returns once the operation parked at its first gate or finished.
 func (r *Runner) startPut(id, obj, ver int, chunking, fault string) {
 	d := r.Digest(obj)
-	op := &pendingOp{id: id, kind: "put", obj: obj, ver: ver, resume: make(chan struct{}), copied: true}
+	op := &pendingOp{id: id, kind: "put", obj: obj, ver: ver, resume: make(chan struct{}), copied: true,
+		corruptionsAtStart: r.corruptions, discardsAtStart: r.discards.total()}
 	var b buffer.Buffer
 	size := 0
 	if r.st.Cfg.Kind == "ac" {
